@@ -66,7 +66,7 @@ P = {
          "AddressSanitizer is not used (Miri also sees uninitialised reads, which ASan does not); Miri executes ~2500 vectors per run"),
  "C03": (True, "model_checking", "6 C03",
          "TLA+ Adt.tla: TLC enumerates all legal evolution histories and checks mechanism (header/chunks/regions) = documented outcome; each history is rendered as derive inputs (one Rust type per version) and every (writer, reader, value, embedding) case replayed; the per-field decision table (AdtMech.tla) is proved by TLC to refine the documented outcome (KindsMeanOutcome) and the decisions recorded from the running library are validated against it (Trace_Adt), the buffer / chunk mechanism against Writer.tla (Trace_Writer)",
-         "every legal history up to 2 steps (quick) / 3 steps (thorough) from every initial record of 1-2 fields, all version pairs, all values, four embeddings (top level, in a tuple, in a chunk, in a vector in a chunk); expected outcome computed by the specification's Expected operator written from the documentation; vacuity guards: dropping the legality rule or the DESIGN-9 exclusion makes TLC fail.",
+         "TLC checks every legal history up to 3 steps (thorough: 4 steps in two embeddings) from every initial record of 0-2 fields; replayed into generated Rust types: every history up to 2 steps plus 1/16 (quick) / 1/4 (thorough) of the 3-step and 1/256 of the 4-step ones, all version pairs, all values, four embeddings (top level, in a tuple, in a chunk, in a vector in a chunk); expected outcome computed by the specification's Expected operator written from the documentation; vacuity guards: dropping the legality rule or the DESIGN-9 exclusion makes TLC fail.",
          "field types limited to u8/Option<u8> (plus String and a nested record in the rich configuration); histories bounded; gen_decl.py trusted to render declarations"),
  "C05": (True, "fault_enumeration", "6 C05",
          "TLA+ reference decoder evaluated by TLC on every enumerated hostile input (DecTotal / TamperTotal on Hostile.tla); each input decoded by the library under panic, hang, time and heap monitors in debug (overflow checks) and release builds; Reader.tla's RegionInv proved inductive by Apalache for every buffer length, read size and region (ReaderInt.tla); deep well-formed inputs (MC_Deep), multi-byte text probes (MC_Text), irregular-history data",
